@@ -23,8 +23,8 @@ PID = "C19"
 MDEPTH = 6
 TIERS = {
     # n_other: sampled vectors besides the always-included core; reps: materialisations per vector
-    "quick": dict(n_other=330, reps=1, pdepth=3, pipe_sets=1, nsol=3, cap=40),
-    "thorough": dict(n_other=None, reps=2, pdepth=4, pipe_sets=3, nsol=5, cap=80),
+    "quick": dict(n_other=230, reps=1, pdepth=3, pipe_sets=1, nsol=3, cap=40),
+    "thorough": dict(n_other=None, reps=1, pdepth=4, pipe_sets=3, nsol=5, cap=80),
 }
 
 NULLSTART = {"<start>": ["<S>"], "<S>": ["<A><B>"], "<A>": ["a<A>", ""], "<B>": ["b", ""]}
@@ -278,7 +278,7 @@ def materialise(v, cat, rnd, cid):
         else:
             files["input.json"] = json.dumps(parse_tree_of(tree))
             fargs.append("input.json")
-    extra = {"solve": ["-n", "2", "-t", "10"]}.get(v["cmd"], [])
+    extra = {"solve": ["-n", "2", "-t", "5"]}.get(v["cmd"], [])
     argv = [v["cmd"]] + extra + opts + fargs
     return {"id": cid, "cmd": v["cmd"], "g": v["g"], "c": v["c"], "ik": v["ik"], "gn": gn,
             "empty": v["ik"] in ("string", "file") and text == "" and not ambiguous, "ambiguous": ambiguous,
@@ -294,8 +294,11 @@ def select_vectors(vectors, P, rnd):
     keyf = lambda v: json.dumps(v, sort_keys=True)
     seen = {keyf(v) for v in core}
     rest = sorted((v for v in vectors if keyf(v) not in seen), key=keyf)
-    if P["n_other"] is not None and len(rest) > P["n_other"]:
-        rest = rnd.sample(rest, P["n_other"])
+    n_other = P["n_other"]
+    if os.environ.get("VERIF_C19_MAX_OTHER"):          # development aid: bound a thorough run
+        n_other = int(os.environ["VERIF_C19_MAX_OTHER"])
+    if n_other is not None and len(rest) > n_other:
+        rest = rnd.sample(rest, n_other)
     return core + rest
 
 
@@ -306,8 +309,8 @@ def traceback_cause(o):
     err, exc, where = o.get("stderr_tail", ""), o.get("exc", ""), o.get("where", "")
     if exc == "IndexError" and where == "cli.py:get_input_string":
         return "empty-input"
-    if "safe()" in err and exc == "TypeError":
-        return "returns-safe-api"
+    if ("safe()" in err and exc == "TypeError") or "'Maybe' has no attribute" in err:
+        return "returns-library-api"
     if "Grammar has no rules for" in err:
         return "illformed-grammar"
     if "cli.py:get_input_string" in o.get("frames", []):      # the JSON branch of get_input_string (.map does not catch)
@@ -362,7 +365,7 @@ def judge_cases(chk, wd, cases):
                 o = c["obs"]
                 if verdict == "traceback":
                     sig = {"clause": "traceback", "cause": traceback_cause(o)}
-                elif verdict == "status" and row == "check-accept" and c["ik"] == "file" and pj.text(c["text"]).endswith("\n"):
+                elif verdict == "status" and row.startswith("check-") and c["ik"] == "file" and pj.text(c["text"]).endswith("\n"):
                     sig = {"clause": "status", "cause": "trailing-newline-stripped"}
                 else:
                     sig = {"clause": verdict, "cause": "other", "cmd": c["cmd"], "row": row, "status": o["status"], "ik": c["ik"]}
@@ -382,6 +385,7 @@ def run_singles(chk, wd, cases):
         if "obs" not in res:
             raise RuntimeError("C19 driver failed: %r" % (res,))
         c["obs"] = res["obs"]
+        chk.cov["subprocess_wall_sum_s"] = round(chk.cov.get("subprocess_wall_sum_s", 0) + res["obs"].get("wall", 0), 1)
     n = judge_cases(chk, wd, cases)
     chk.cov["traces_validated_against_impl"] += n
     for c in cases[:3]:
@@ -445,6 +449,7 @@ def run_pipes(chk, wd, pipes):
         if "events" not in res:
             raise RuntimeError("C19 pipeline driver failed: %r" % (res,))
         p["events"] = res["events"]
+        chk.cov["subprocess_wall_sum_s"] = round(chk.cov.get("subprocess_wall_sum_s", 0) + sum(e.get("wall", 0) for e in res["events"]), 1)
         recs.append(p)
     cf = os.path.join(wd, "pipes.json")
     keys = ("a", "spec", "status", "tb", "outs", "file", "timeout")
@@ -502,8 +507,8 @@ def main(tier):
         "condition vectors: TLC enumerates Cli!GenVectors = command x grammar {none,bad,illformed,ok} x how given x constraints "
         "{none,bad,one,two,two with one malformed} x how given {option,file,mixed} x input {none,--input-string,file,JSON tree file} "
         "x input class {empty,satisfying,violating,not in the language}; quick runs all `check` vectors with a well-formed grammar file and "
-        "one/several well-formed constraints plus the empty-file vectors of the other commands plus a seeded sample of the rest, thorough runs all "
-        "vectors twice with different grammars/constraints/inputs; one evaluation = one subprocess judged by TLC against Cli!Exit and the "
+        "one/several well-formed constraints plus the empty-file vectors of the other commands plus all solve vectors with a well-formed grammar plus a seeded sample of the rest, thorough runs all "
+        "vectors (grammar/constraints/input of each drawn with VERIF_SEED); one evaluation = one subprocess judged by TLC against Cli!Exit and the "
         "no-traceback clause (or one event of a two-step pipeline); non-trivial = distinct (command, grammar, constraints, input kind, row, member, sat) "
         "with a row the statement fixes, plus distinct pipeline plans that emitted at least one output")
     chk.assumptions = [
@@ -540,11 +545,11 @@ def main(tier):
                 cases.append(materialise(v, cat, rnd, len(cases) + 1))
         run_singles(chk, wd, cases)
         lap("single_runs_and_judging")
-        run_pipes(chk, wd, build_pipes(plans, cat, P, rnd))
+        run_pipes(chk, wd, build_pipes(plans, cat, P, random.Random(chk.seed + 1900)))
         lap("pipelines_and_judging")
     finally:
         shutil.rmtree(wd, ignore_errors=True)
-    return chk.finish(exhaustive=(tier == "thorough"))
+    return chk.finish(exhaustive=(chk.cov.get("vectors_run") == chk.cov.get("vectors_total")))
 
 
 def replay(path):
